@@ -77,6 +77,10 @@ func checkC08(c *Ctx) {
 	c.useRules(ruleP4)
 	c.trieTraversals()
 	lockBalance(c, func(cl string) bool { return strings.HasPrefix(cl, "topics.MemTopics.rmu") }, "retained-store")
+	// what goes out has the length Len() says and the bytes the encoder counted (T1 length tables, B14)
+	c.codecLengthTables()
+	// the stored copy is made while the publisher's bytes are still in the ring
+	c.commitAfterUse()
 }
 
 // retainStoreContract: empty payload clears, anything else stores.
